@@ -17,6 +17,9 @@ import (
 	"testing"
 
 	mtasts "github.com/foxcpp/go-mtasts"
+	"github.com/foxcpp/maddy/framework/log"
+	"github.com/foxcpp/maddy/framework/module"
+	"github.com/foxcpp/maddy/internal/target/remote"
 	"github.com/foxcpp/maddy/verifharness/vtrace"
 )
 
@@ -251,6 +254,11 @@ func runRow(in *rowIn) vtrace.Ev {
 			mx += "."
 		}
 		out := vtrace.Ev{"m": "", "mxname": mx, "patterns": pol.MX}
+		// through maddy: the delivery object of mx_auth.mtasts with this policy as the result of the lookup
+		mp := remote.VerifRemoteMTASTSPolicy(func(context.Context, string) (*mtasts.Policy, error) { return &pol, nil },
+			log.Logger{Out: log.NopOutput{}})
+		dl := mp.Start(&module.MsgMetadata{ID: "row"})
+		dl.PrepareDomain(context.Background(), rowDomain)
 		func() {
 			defer func() {
 				if r := recover(); r != nil {
@@ -258,10 +266,14 @@ func runRow(in *rowIn) vtrace.Ev {
 					out["msg"] = fmt.Sprint(r)
 				}
 			}()
-			if pol.Match(mx) {
+			lvl, err := dl.CheckMX(context.Background(), module.MXNone, rowDomain, mx, false)
+			switch {
+			case lvl == module.MX_MTASTS && err == nil:
 				out["m"] = "yes"
-			} else {
-				out["m"] = "no"
+			case lvl == module.MXNone && err != nil:
+				out["m"] = "no" // enforce mode: a host outside the policy is refused
+			default:
+				out["m"] = fmt.Sprintf("level %v err %v", lvl, err)
 			}
 		}()
 		return out
